@@ -20,6 +20,7 @@ Definition label_tag (o : xop) : N :=
   | Base (Flush _) => 50
   | Base (Commit _ _ _) => 40
   | Base _ => 0
+  | CommitV _ _ _ _ => 40
   | GetHold _ _ _ _ => 0
   | ItemValue _ _ => 0
   | ItOpen _ _ _ => 242
